@@ -80,6 +80,28 @@ def run(ctx):
             ctx.violation(sig, keep, "BatchProp clause %s broken by %s (case %s %s): %s" % (clause, d["variant"], d["case"], d["label"], ", ".join(d["desc"])))
         if len(details) != len(verdicts):
             raise vlib.MachineryError("the driver saw %d flushes with differences, the monitor condemned %d" % (len(details), len(verdicts)))
+    # the relay on a kernel UDP socket (the scripted connection sees one Write per buffer whatever the sender does)
+    out = ctx.path("out-udp.json")
+    rc, txt, wall = ctx.go_test("c17", run="TestRelayRealUDP", env={"VERIF_OUT": out}, timeout=1500)
+    if rc != 0 or not os.path.exists(out):
+        sig = vlib.crash_attribution(txt)
+        if sig:
+            ctx.violation("crash:" + sig[0], ctx.save_replay("crash", {"output": sig[1]}), "the relay crashed while sending a flush: " + sig[0])
+            return
+        raise vlib.MachineryError("harness c17 (relay over a UDP socket) failed (rc=%d)\n%s" % (rc, txt[-3000:]))
+    r = vlib.read_results(out)
+    ctx.cov["evaluations"] += r["evaluations"]
+    for k, n in r["named"].items():
+        named[k] = named.get(k, 0) + n
+    seen = set()
+    for f in r["failures"]:
+        if f["sig"] not in seen:
+            seen.add(f["sig"])
+            ctx.violation(f["sig"], ctx.save_replay(f["sig"].replace(":", "_").replace("/", "_"), f), f["desc"])
+    if named.get("no-udp-socket", 0) > 0:
+        ctx.assumptions.append("no loopback UDP socket could be opened: the relay's datagram boundaries on a kernel socket were not observed in this run")
+    elif named.get("relay-udp-socket-multi-datagram", 0) == 0 and not ctx.violations:
+        raise vlib.MachineryError("vacuity: relay-udp-socket-multi-datagram never reached")
     for h in hostless:
         if named.get("hostless:" + h, 0) > 0:
             ctx.violation("hostless:" + h, "", "the source is not written by " + h)
@@ -95,7 +117,8 @@ def run(ctx):
                        "sub-metric disabled, an empty flush, the same series from two hosts, relay datagrams filled to 1471..1474 and 2944/2945 bytes, "
                        "numeric looking and empty tag values) plus seeded random aggregate states of up to MaxSeries series from the pools of "
                        "BatchSched.tla x batch size x disabled sub-metrics x percent thresholds x compression x histogram limit; every state through "
-                       "all 17 backend variants; one evaluation = one flush of one variant")
+                       "all 17 backend variants; one evaluation = one flush of one variant; plus flushes of 2..600 series through the relay "
+                       "on a kernel UDP socket of the loopback interface (datagram boundaries as the kernel delivers them)")
 
 
 def replay(ctx, path):
